@@ -125,6 +125,40 @@ class Session:
     def call(self, step: dict, fn, *args, **kwargs):
         return self.world.call(step.get("mod"), int(step.get("depth", 0)), fn, *args, **kwargs)
 
+    def scan_exhaust(self, step: dict, fn, *args, max_attempts: int = 400, stride: int = 1, **kwargs):
+        """F10, swept: issue the same call from ever shallower stack depths, starting where not even
+        the trampoline fits under the recursion limit, until it first completes.  Every attempt
+        before that one is cut short by RecursionError one or a few frames further into the call, so the
+        fault point sweeps over the whole call.  Returns (attempts that raised RecursionError,
+        outcome of the first attempt that did not).  What the library keeps from the aborted
+        attempts is what the caller judges afterwards."""
+        limit = self.env["reclimit"]
+        mod = step.get("mod")
+        depth = limit - 8
+        aborted = inside = 0
+        last = None
+        for _ in range(max_attempts):
+            if depth < 0:
+                break
+            last = self.guarded(self.world.call, mod, depth, fn, *args, **kwargs)
+            if last.ok or not isinstance(last.exc, RecursionError):
+                break
+            aborted += 1
+            depth -= stride
+            tb = last.exc.__traceback__
+            while tb.tb_next is not None:
+                tb = tb.tb_next
+            if "_vw_call" != tb.tb_frame.f_code.co_name:
+                inside += 1
+            last.exc.__traceback__ = None
+        if inside:
+            self.probes["exhaust_scan_aborted_inside_the_call"] += inside
+        if aborted:
+            self.faults["exhaust_scan"] += 1
+            self.probes["exhaust_scan_aborted_attempts"] += aborted
+            self.fault_fired_before = True
+        return aborted, last
+
     def T(self, step_or_t, mod=None):
         if "k" in step_or_t:
             return self.world.realize(step_or_t, mod or self.default_mod)
